@@ -473,6 +473,10 @@ def consumers(rep, prog):
         for w in wants:
             if w in got:
                 rep.ok("C18.consumers", prog, None, None, "%s is read by %s" % (field.split("::")[1], w))
+            elif not prog.by_qn.get(w):
+                # the consumer named by the frozen table no longer exists as a function (merged into its caller, renamed): where
+                # the parameter is consumed now is not decided
+                raise AnalysisBroken("consumer table: %s (consumer of %s) is no longer a function of the program; readers found: %s" % (w, field, ", ".join(sorted(got)) or "none"))
             else:
                 rep.violation("C18.consumers", prog, None, None, "%s no longer read by %s" % (field.split("::")[1], w),
                               "the parameter %s must be consumed by %s (it governs that behaviour); readers found: %s" % (field, w, ", ".join(sorted(got)) or "none"))
